@@ -2231,10 +2231,15 @@ XSLTEngineImpl::cloneToResultTree(
                     if (theBoundNamespace == 0 ||
                         equals(*theBoundNamespace, theNamespace) == false)
                     {
-                        if (m_resultNamespacesStack.prefixIsPresentLocal(thePrefix) == true)
+                        if (m_resultNamespacesStack.prefixIsPresentLocal(thePrefix) == true ||
+                            (theBoundNamespace != 0 &&
+                             isPendingResultPrefix(thePrefix) == true))
                         {
                             // The element already declares the prefix
-                            // for another namespace...
+                            // for another namespace, or its own name (or
+                            // one of its attributes) uses the prefix with
+                            // the binding of an enclosing element, which
+                            // a new declaration would change...
                             reportDuplicateNamespaceNodeError(thePrefix, locator);
                         }
                         else
